@@ -57,8 +57,11 @@ fn verif_replay() {
             use crate::context::{make_buffered_stream, GlobalState as CtxState};
             let (mut cpeer, cours) = tokio::io::duplex(65536);
             let (mut speer, sours) = tokio::io::duplex(65536);
-            cpeer.write_all(b"HELLO\nclient-pipelined").await.unwrap();
-            speer.write_all(b"OK\nserver-early").await.unwrap();
+            // which side sent bytes behind its handshake line (the other side sent the line only)
+            let client_early = a["client_early"].as_bool().unwrap_or(true);
+            let server_early = a["server_early"].as_bool().unwrap_or(true);
+            cpeer.write_all(if client_early { &b"HELLO\nclient-pipelined"[..] } else { &b"HELLO\n"[..] }).await.unwrap();
+            speer.write_all(if server_early { &b"OK\nserver-early"[..] } else { &b"OK\n"[..] }).await.unwrap();
             let mut client = make_buffered_stream(cours);
             let mut server = make_buffered_stream(sours);
             let mut line = String::new();
@@ -77,8 +80,10 @@ fn verif_replay() {
             let nc = tokio::time::timeout(std::time::Duration::from_millis(500), cpeer.read(&mut at_client)).await.ok().and_then(|r| r.ok()).unwrap_or(0);
             drop(cpeer); drop(speer);
             let _ = tokio::time::timeout(std::time::Duration::from_millis(500), relay).await;
+            let want_server: &[u8] = if client_early { b"client-pipelined" } else { b"" };
+            let want_client: &[u8] = if server_early { b"server-early" } else { b"" };
             serde_json::json!({"panicked": false, "server_received": String::from_utf8_lossy(&at_server[..ns]), "client_received": String::from_utf8_lossy(&at_client[..nc]),
-                               "handover_complete": &at_server[..ns] == b"client-pipelined" && &at_client[..nc] == b"server-early"})
+                               "handover_complete": &at_server[..ns] == want_server && &at_client[..nc] == want_client})
         });
         println!("VERIF-OUTCOME {}", out);
         return;
